@@ -103,6 +103,23 @@ class RandomHarness(NativeHarness):
                 return s
         raise _Discard()
 
+    def string_any(self, name, min_bytes=0, max_bytes=None):
+        alphabet = "abcXYZ 019é€𝄞-_/,\x00"
+        hi = max_bytes if max_bytes is not None else 300
+        r = self.rng.random()
+        target = min_bytes if r < 0.1 else hi if r < 0.25 else self.rng.randint(min_bytes, min(hi, 60)) if r < 0.8 else self.rng.randint(min_bytes, hi)
+        s = ""
+        while len(s.encode()) < target:
+            s += self.rng.choice(alphabet)
+        while len(s.encode()) > hi:
+            s = s[:-1]
+        if len(s.encode()) < min_bytes:
+            raise _Discard()
+        b = s.encode()
+        self._rec(name, s, {"__bytes__": list(b)})
+        self.inputs[name + "_len"] = len(b)
+        return s
+
     def assume(self, c, why=None):
         if not bool(c):
             raise _Discard()
